@@ -43,6 +43,11 @@ type Snapshot struct {
 	maxReaderID int
 	closed      bool
 
+	// lowest nodes-log offset reachable from root when the snapshot was taken; a later flush with
+	// cleanup moves root.minOffset() forward in place (the snapshot may share its root object with
+	// the tree), while readers of this snapshot may still hold nodes loaded before that flush
+	pinnedMinOff int64
+
 	_buf []byte
 
 	mutex sync.RWMutex
